@@ -184,7 +184,10 @@ def gen_doc(rng: random.Random, size: int = 4, zones: bool = True, sections: boo
             if any(k == e[0] for e in d["meta"]):
                 continue
             if rng.random() < 0.2:
-                d["meta"].append([k, {"nested": [[kk, gen_scalar(rng)] for kk in rng.sample(["A", "B", "C"], rng.randint(1, 2))]}])
+                def nv():
+                    v = gen_value(rng, depth=1)
+                    return v if v["t"] != "zone" else gen_scalar(rng)
+                d["meta"].append([k, {"nested": [[kk, nv()] for kk in rng.sample(["A", "B", "C"], rng.randint(1, 2))]}])
             else:
                 v = gen_value(rng, depth=1)
                 if v["t"] == "zone":
